@@ -1,6 +1,6 @@
 From Coq Require Import ExtrOcamlBasic ZArith.
 From MT Require Import Wsq.WsqModel Wsq.TsoModel.
 Extraction Language OCaml.
-Separate Extraction step sched_step finished label obs result init_state
+Separate Extraction step sched_event sched_step finished label obs result init_state
   tso_step tso_sched_step tso_run tso_init has_dup fence_table_ok pinned_table
   Z.add Z.mul Z.opp Z.div_eucl.
